@@ -5,6 +5,7 @@ import (
 	"fmt"
 	"os"
 
+	"verifharness/drv/ag"
 	"verifharness/drv/cf"
 	"verifharness/drv/ec"
 	"verifharness/drv/fr"
@@ -48,6 +49,8 @@ func main() {
 		os.Exit(ec.Main(os.Args[2:]))
 	case "rt":
 		os.Exit(rt.Main(os.Args[2:]))
+	case "ag":
+		os.Exit(ag.Main(os.Args[2:]))
 	case "hb":
 		os.Exit(hb.Main(os.Args[2:]))
 	default:
